@@ -643,7 +643,6 @@ struct Corpus {
     body_opt: IndexRecordOption,
     /// (segment chunk index, field) forced to have no value at all
     allmiss: Option<(usize, FF)>,
-    nseg_planned: usize,
 }
 
 const COMMON: [(u16, u32); 4] = [(0, 95), (1, 70), (2, 45), (3, 25)];
@@ -874,7 +873,6 @@ fn gen_corpus(rng: &mut Rng, quick: bool) -> Corpus {
         del_mode,
         body_opt,
         allmiss,
-        nseg_planned: nchunks,
     }
 }
 
@@ -1060,6 +1058,7 @@ fn check_exact(
     k: usize,
     o: usize,
     extra_sig: &str,
+    merge_truncates: bool,
 ) -> bool {
     let m = expected_all.len();
     let lo = o.min(m);
@@ -1125,8 +1124,13 @@ fn check_exact(
             eprintln!("problem {p} K={k} O={o} expected head: {:?}", expected_all.iter().take(8).map(|(k, h)| (h.addr, k.js().to_string(), h.id)).collect::<Vec<_>>());
             eprintln!("   got: {:?}", got.iter().map(|(k, a)| (a, k.js().to_string())).collect::<Vec<_>>());
         }
+        let tie_extra = if merge_truncates && p == "tie-not-broken-by-ascending-address" {
+            "[merge-of-more-than-2(K+O)-unsorted-segment-results]"
+        } else {
+            ""
+        };
         rep.violation(
-            format!("{}:{}{}", c.kind.family(), p, extra_sig),
+            format!("{}:{}{}{}", c.kind.family(), p, extra_sig, tie_extra),
             json!({
                 "sort": c.kind.name(), "query": c.qdesc, "query_kind": c.qkind, "K": k, "O": o,
                 "matches": m, "first_difference_at": at,
@@ -1458,7 +1462,13 @@ fn case(case: u64, rng: &mut Rng, rep: &mut Report, quick: bool) {
         rep.observe("longest_posting_list_in_a_segment", blk);
         rep.observe("query_kind", qkind);
         rep.observe("key_comparison", if exact_q { "exact" } else { "float-sum-tolerance" });
-        // the grid of (K, O)
+        // matches per segment (for the attribution of the merge defect, see below)
+        let mut per_seg: BTreeMap<u32, usize> = BTreeMap::new();
+        for h in &hits {
+            *per_seg.entry(h.addr.segment_ord).or_insert(0) += 1;
+        }
+        // the grid of (K, O): the K values of the property, plus mid-size K (several segments
+        // deliver full per-segment lists, so the merge has to truncate)
         let mut ks: Vec<usize> = vec![1, 2, 10, m + 5];
         if m >= 2 {
             ks.push(m - 1);
@@ -1466,15 +1476,91 @@ fn case(case: u64, rng: &mut Rng, rep: &mut Report, quick: bool) {
         if m >= 1 {
             ks.push(m);
         }
+        if m >= 8 {
+            ks.push(m / 2);
+            ks.push(m / 3);
+            ks.push(rng.urange(3, m - 1));
+        }
+        // plan: (kind, K, O, is_paging_page)
+        let mut plan: Vec<(SortKind, usize, usize, bool)> = vec![];
         let n_searches = if qi == 0 { 10 } else { 8 };
         for si in 0..n_searches {
             let kind = if si < 3 { SortKind::Score } else { random_sort_kind(rng, exact_q) };
-            let k = *rng.pick(&ks);
+            let k = if m >= 8 && nseg >= 3 && rng.chance(1, 3) {
+                rng.urange(2, m / 2 + 1)
+            } else {
+                *rng.pick(&ks)
+            };
             let o = match rng.below(4) {
                 0 => 0,
                 1 => 1,
                 2 => k,
                 _ => m + rng.urange(0, 3),
+            };
+            plan.push((kind, k, o, false));
+        }
+        // targeted (K,O): the cut O+K falls inside a group of equal keys that lies in the third or
+        // a later segment (resolved below, once the full order for the sort kind is known)
+        if nseg >= 3 && m >= 4 {
+            for _ in 0..2 {
+                let kind = loop {
+                    let k = random_sort_kind(rng, exact_q);
+                    if exact_q || !k.uses_score() {
+                        break k;
+                    }
+                };
+                plan.push((kind, usize::MAX, rng.usize_below(3), false));
+            }
+        }
+        // paging: successive offsets over exactly comparable keys enumerate every match exactly
+        // once, i.e. page i equals entries i*P..(i+1)*P of the full order
+        if m >= 1 && rng.chance(1, 2) {
+            let kind = loop {
+                let k = random_sort_kind(rng, exact_q);
+                if exact_q || !k.uses_score() {
+                    break k;
+                }
+            };
+            let mut p = *rng.pick(&[1usize, 2, 3, 7, 10, 50, 128]);
+            if m / p > 24 {
+                p = m / 24 + 1;
+            }
+            let mut off = 0usize;
+            while off <= m {
+                plan.push((kind, p, off, true));
+                off += p;
+            }
+            rep.count("paging_runs", 1);
+        }
+        let mut paging_broken = false;
+        for (si, (kind, k, o, paging)) in plan.into_iter().enumerate() {
+            if paging && paging_broken {
+                continue;
+            }
+            let mut expected_all: Vec<(CKey, Hit)> = hits
+                .iter()
+                .map(|h| (kind.key_of(h, &corpus.docs[by_id[&h.id]]), *h))
+                .collect();
+            let spec = kind.cmp();
+            expected_all.sort_by(|a, b| spec.rank(&a.0, &b.0).then_with(|| a.1.addr.cmp(&b.1.addr)));
+            let (k, o) = if k == usize::MAX {
+                let cands: Vec<usize> = (0..m.saturating_sub(1))
+                    .filter(|&i| {
+                        let (a, b) = (&expected_all[i], &expected_all[i + 1]);
+                        a.1.addr.segment_ord >= 2
+                            && a.1.addr.segment_ord == b.1.addr.segment_ord
+                            && spec.rank(&a.0, &b.0) == Ordering::Equal
+                    })
+                    .collect();
+                if cands.is_empty() {
+                    continue;
+                }
+                let t = *rng.pick(&cands) + 1;
+                let o = o.min(t - 1);
+                rep.count("searches_with_cut_inside_a_tie_group_of_a_late_segment", 1);
+                (t - o, o)
+            } else {
+                (k, o)
             };
             let oclass = if o == 0 {
                 "0"
@@ -1482,19 +1568,22 @@ fn case(case: u64, rng: &mut Rng, rep: &mut Report, quick: bool) {
                 "1"
             } else if o >= m {
                 "beyond-end"
+            } else if paging {
+                "page"
             } else {
                 "K"
             };
             let exact = exact_q || !kind.uses_score();
             rep.eval();
+            if paging {
+                rep.count("paging_pages", 1);
+            }
             rep.observe("sort_kind", kind.name());
             rep.observe("K_class", kclass(k, m));
             rep.observe("O_class", oclass);
             let got = match do_search(kind, &searcher, &*query, k, o, &tables) {
                 Ok(g) => g,
                 Err(e) => {
-                    // specific signature: a sort on a fast field fails when one segment holds no
-                    // value at all for that field
                     let field = match kind {
                         SortKind::U64Field(_) => Some("fu"),
                         SortKind::Fast(f, _) | SortKind::FastCmp(f, _) | SortKind::Erased(f, _) => Some(f.field()),
@@ -1510,6 +1599,8 @@ fn case(case: u64, rng: &mut Rng, rep: &mut Report, quick: bool) {
                     };
                     let sig = match field {
                         _ if e.starts_with(PANIC_PREFIX) => panic_sig(&e),
+                        // (never observed: a sort on a fast field when one segment holds no value
+                        // at all for that field)
                         Some(f) if empty_column[f] => format!(
                             "{}:search-fails-when-a-segment-has-no-value-for-the-sort-field",
                             kind.family()
@@ -1520,15 +1611,10 @@ fn case(case: u64, rng: &mut Rng, rep: &mut Report, quick: bool) {
                         sig,
                         json!({"error": e, "sort": kind.name(), "query": qdesc, "K": k, "O": o, "corpus": corpus_desc}),
                     );
+                    paging_broken |= paging;
                     continue;
                 }
             };
-            let mut expected_all: Vec<(CKey, Hit)> = hits
-                .iter()
-                .map(|h| (kind.key_of(h, &corpus.docs[by_id[&h.id]]), *h))
-                .collect();
-            let spec = kind.cmp();
-            expected_all.sort_by(|a, b| spec.rank(&a.0, &b.0).then_with(|| a.1.addr.cmp(&b.1.addr)));
             let c6 = Ctx6 {
                 corpus_desc: &corpus_desc,
                 qdesc: &qdesc,
@@ -1536,10 +1622,10 @@ fn case(case: u64, rng: &mut Rng, rep: &mut Report, quick: bool) {
                 kind,
                 n_leaves,
             };
-            // attribution of one specific defect (see `stale_block_max`): some document that
-            // belongs to the first O+K entries but was not returned sits in a posting block
-            // whose stored block-max pair underestimates the block at search time
             let mut extra = String::new();
+            // attribution 1 (see `stale_block_max`): some document that belongs to the first O+K
+            // entries but was not returned sits in a posting block whose stored block-max pair
+            // underestimates the block at search time
             if matches!(kind, SortKind::Score) && nseg >= 2 && pruning_terms.is_some() {
                 let hi = (o + k).min(m);
                 let got_set: HashSet<DocAddress> = got.iter().map(|x| x.1).collect();
@@ -1552,11 +1638,20 @@ fn case(case: u64, rng: &mut Rng, rep: &mut Report, quick: bool) {
                     }
                 }
             }
+            // attribution 2: merge_fruits feeds the per-segment lists (in heap / buffer order,
+            // not in address order) to a TopNComputer of capacity 2*(O+K); that computer only
+            // truncates - and then starts rejecting keys equal to its threshold - when more than
+            // 2*(O+K) entries arrive. With at most two segments this cannot happen.
+            let delivered: usize = per_seg.values().map(|&c| c.min(o + k)).sum();
+            let merge_truncates = delivered > 2 * (o + k);
             let ok = if exact {
-                check_exact(rep, &c6, &expected_all, &got, k, o, &extra)
+                check_exact(rep, &c6, &expected_all, &got, k, o, &extra, merge_truncates)
             } else {
                 check_approx(rep, &c6, &expected_all, &got, k, o, &extra)
             };
+            if !ok {
+                paging_broken |= paging;
+            }
             // non-triviality
             let tie = if o + k < m && o + k >= 1 {
                 let a = &expected_all[o + k - 1];
@@ -1571,6 +1666,9 @@ fn case(case: u64, rng: &mut Rng, rep: &mut Report, quick: bool) {
             };
             if tie {
                 rep.count("searches_with_a_tie_at_the_page_boundary", 1);
+                if merge_truncates {
+                    rep.count("searches_with_boundary_tie_and_truncating_merge", 1);
+                }
             }
             if o + k < m && (tie || max_df_seg > 128) {
                 rep.nontrivial(format!(
@@ -1587,91 +1685,6 @@ fn case(case: u64, rng: &mut Rng, rep: &mut Report, quick: bool) {
                     "comparison": if exact {"exact"} else {"tolerance"},
                     "returned_head": brief(&got, 0),
                 }));
-            }
-        }
-        // paging: successive offsets over exactly comparable keys enumerate every match once
-        if m >= 1 && rng.chance(1, 2) {
-            let kind = loop {
-                let k = random_sort_kind(rng, exact_q);
-                if exact_q || !k.uses_score() {
-                    break k;
-                }
-            };
-            let mut p = *rng.pick(&[1usize, 2, 3, 7, 10, 50, 128]);
-            if m / p > 24 {
-                p = m / 24 + 1;
-            }
-            let mut all: Vec<(CKey, DocAddress)> = vec![];
-            let mut off = 0usize;
-            let mut failed = false;
-            let mut pages = 0u64;
-            loop {
-                rep.eval();
-                pages += 1;
-                match do_search(kind, &searcher, &*query, p, off, &tables) {
-                    Ok(page) => {
-                        if page.is_empty() {
-                            break;
-                        }
-                        if page.len() > p {
-                            rep.violation(
-                                format!("{}:paging-page-longer-than-limit", kind.family()),
-                                json!({"sort": kind.name(), "query": qdesc, "P": p, "O": off, "len": page.len(), "corpus": corpus_desc}),
-                            );
-                            failed = true;
-                            break;
-                        }
-                        all.extend(page);
-                        off += p;
-                        if off > m + 2 * p {
-                            break;
-                        }
-                    }
-                    Err(_) => {
-                        // reported by the grid part with its own signature
-                        failed = true;
-                        break;
-                    }
-                }
-            }
-            rep.count("paging_runs", 1);
-            rep.count("paging_pages", pages);
-            if !failed {
-                let mut expected_all: Vec<(CKey, Hit)> = hits
-                    .iter()
-                    .map(|h| (kind.key_of(h, &corpus.docs[by_id[&h.id]]), *h))
-                    .collect();
-                let spec = kind.cmp();
-                expected_all.sort_by(|a, b| spec.rank(&a.0, &b.0).then_with(|| a.1.addr.cmp(&b.1.addr)));
-                let same = all.len() == expected_all.len()
-                    && all
-                        .iter()
-                        .zip(expected_all.iter())
-                        .all(|((gk, ga), (ek, eh))| *ga == eh.addr && gk.same(ek));
-                if !same {
-                    let got_set: HashSet<DocAddress> = all.iter().map(|x| x.1).collect();
-                    let what = if got_set.len() != all.len() {
-                        "paging-repeats-a-document"
-                    } else if all.len() < expected_all.len() {
-                        "paging-skips-a-document"
-                    } else {
-                        "paging-order-differs-from-full-order"
-                    };
-                    let at = all
-                        .iter()
-                        .zip(expected_all.iter())
-                        .position(|((gk, ga), (ek, eh))| *ga != eh.addr || !gk.same(ek))
-                        .unwrap_or(all.len().min(expected_all.len()));
-                    rep.violation(
-                        format!("{}:{}", kind.family(), what),
-                        json!({"sort": kind.name(), "query": qdesc, "P": p, "matches": m, "enumerated": all.len(),
-                               "first_difference_at": at, "got_from_diff": brief(&all, at),
-                               "expected_from_diff": expected_all.iter().skip(at).take(6).map(|(k, h)| json!([h.addr.segment_ord, h.addr.doc_id, k.js()])).collect::<Vec<_>>(),
-                               "corpus": corpus_desc}),
-                    );
-                } else if pages >= 3 {
-                    rep.count("paging_runs_with_3_or_more_pages_verified", 1);
-                }
             }
         }
     }
